@@ -331,16 +331,19 @@ func (c *canonC) vmap(m *ds.ValueMap) string {
 		return "<cycle>"
 	}
 	c.on[m] = true
-	mm := map[string]string{}
-	m.Range(func(k string, e *ds.VMValue) bool { mm[k] = c.val(e); return true })
-	keys := make([]string, 0, len(mm))
-	for k := range mm {
+	// entries are rendered in sorted key order (not in the map's random iteration order): with
+	// cycles and shared sub-structure the place where a back-reference is cut depends on the order
+	// of the walk, so the walk must be a function of the structure alone
+	ents := map[string]*ds.VMValue{}
+	m.Range(func(k string, e *ds.VMValue) bool { ents[k] = e; return true })
+	keys := make([]string, 0, len(ents))
+	for k := range ents {
 		keys = append(keys, k)
 	}
 	sort.Strings(keys)
 	parts := make([]string, 0, len(keys))
 	for _, k := range keys {
-		parts = append(parts, fmt.Sprintf("%q:%s", k, mm[k]))
+		parts = append(parts, fmt.Sprintf("%q:%s", k, c.val(ents[k])))
 	}
 	delete(c.on, m)
 	s := "{" + strings.Join(parts, ",") + "}"
